@@ -54,3 +54,33 @@ chk("C18", "model_checking",
     "All 2048 documents of an 11-feature grammar are built into a real Sim and compared (module paths with registered software, gate clusters, connections with link metrics) with a reference elaborator; 17 semantic single-point mutations (one per error cause in the statement) on all 2048 documents must yield an error; every scalar of 4 hand-written + 64 (quick) / 2048 (thorough) generated documents is replaced by each of 75 garbled or dangling tokens and parsing + elaboration must never panic.",
     "Build-phase panics on descriptions outside the statement's precondition (gate connected to itself or to more than two peers, duplicate/empty submodule names, non-numeric or negative link parameters) are tolerated and counted, identified by their message.",
     "DESIGN.md section 4, C18")
+
+chk("C05", "model_checking",
+    "complete enumeration of async task scripts (1-3 tasks, 1-3 steps from a 125-step alphabet, optional module restart) on a real simulation against a reference interpreter with exact virtual time",
+    "Every single-task script of up to 2 (quick) / 3 (thorough) steps, every two-task combination (1 | 1) and (1 | 2) steps (thorough: also three tasks), and every script of up to 2 steps with the module shut down and restarted, over an alphabet of sleeps, sleep_until, timeouts (over sleep, pending, far-future, message-fed flag), biased selects in both branch orders, create-poll-drop, resets, intervals with the three missed-tick behaviours and busy gaps around the 5 ms tolerance. Each await must return at exactly the computed instant with the computed value, every joined task must finish and the run must end within [last completion, latest finite deadline registered].",
+    "A message-fed future that becomes ready at exactly a competing deadline is a same-instant tie between two events and accepts both results. Futures polled with changing wakers are outside the alphabet.",
+    "DESIGN.md section 4, C05")
+
+chk("C07", "model_checking",
+    "complete enumeration of channel metrics x traffic patterns on a real 2/3-module simulation against a reference channel that branches on same-instant ties",
+    "4 bitrates (0, 8 kbit/s, 1 Mbit/s, sub-nanosecond transmission) x 2 latencies x 2 jitters x 7 policies (Drop, unbounded, byte limits at 0 / one message -1 / exactly one / two / three messages) x all patterns of up to 4 (quick) / 5 (thorough) messages with 3 body sizes and 5 gaps around the transmission time, plus a 2-hop variant. Every message is delivered exactly once at the computed time or dropped by the stated rule, order is preserved without jitter, no body survives the run, and is_busy / transmission_finish_time sampled at every sender tick agree with the busy intervals.",
+    "1 ns tolerance for float rounding; same-instant ties (offer at the idle instant, busy sample on an interval boundary) accept both resolutions.",
+    "DESIGN.md section 4, C07")
+
+chk("C08", "model_checking",
+    "complete enumeration of gate-chain constructions (connect orders x orientations x channel placements x layouts x directions x send kinds) on a real simulation",
+    "Chains of 2..5 (quick) / 2..6 (thorough) gates, all (k-1)! connect orders, 2^(k-1) orientations, 2^(k-1) placements of distinct-latency channels, three gate layouts (one module per gate, two chain gates on one module, cluster-element ends), both directions, send / send_in / add_message_onto, with and without re-issuing every connect in both orientations. Exactly one delivery at the far-end owner at send time + sum of latencies with correct header fields; kind(), mirror-image path_iter, path_end / next_gate, channels on the declared hops, third peer rejected.",
+    "Pure-latency channels (bitrate 0); busy/queue rules are C07's.",
+    "DESIGN.md section 4, C08")
+
+chk("C12", "model_checking",
+    "complete enumeration of module forests x valid insertion orders x stage counts on a real simulation",
+    "All rooted forests of up to 5 (quick) / 6 (thorough) nodes with prefix-sharing names, every parent-before-child insertion order, every assignment of 1..3 start stages (up to 4 nodes; beyond that at most two deviating nodes). at_sim_start order must be stage-major depth-first pre-order with siblings in creation order, exactly once per stage and before the first event; at_sim_end exactly once per module after the last event; parent/child/path/name lookups must agree with the tree; duplicate paths and orphans are rejected at depths 1..3.",
+    "Builder-created trees only (NDL-built trees are compared in C18).",
+    "DESIGN.md section 4, C12")
+
+chk("C19", "model_checking",
+    "complete enumeration of module multigraphs and queries on a real simulation against a reference adjacency list",
+    "All multigraphs on up to 4 (quick) / 5 (thorough) modules with parallel chains, self chains, the first chain routed directly / through one transit gate on each module / through 15 transit gates (16 hops). Global view, connected, bidirectional, spanned from every root, dijkstra from every source (first edge of a BFS-minimal path), filter_nodes for every subset, filter_edges for every single edge.",
+    "Chains longer than 16 hops are outside the supported range.",
+    "DESIGN.md section 4, C19")
